@@ -688,7 +688,15 @@ func runC18(c *fw.Ctx) {
 			} else {
 				sb.WriteString("package p\n\n")
 			}
-			switch gr.Intn(9) {
+			switch gr.Intn(12) {
+			case 9:
+				// one package dot-imported twice: its members reach the file scope twice, as the same objects
+				sb.WriteString("import (\n\t. \"x/dot\"\n\t. \"x/dot\"\n)\n\n")
+			case 10:
+				// one package imported twice under two names, and once more with its own name
+				sb.WriteString("import (\n\t\"x/fmt\"\n\tf2 \"x/fmt\"\n\t\"x/fmt\"\n)\n\n")
+			case 11:
+				sb.WriteString("import . \"x/dot\"\nimport . \"x/dot\"\nimport . \"x/dot2\"\n\n")
 			case 5:
 				// two dot-imported packages exporting the same names: collisions inside the file scope
 				sb.WriteString("import (\n\t. \"x/dot1\"\n\t. \"x/dot2\"\n)\n\n")
